@@ -183,12 +183,14 @@ func (ev evaluatedValues) isMultiReturnCall() (bool, Call) {
 type blockCallback func(statements []Statement, last bool) error
 
 type Parser struct {
-	tokens    []lexer.Token
-	index     int
-	path      string
-	prefix    string
-	currFunc  string
-	usedFuncs map[string][]string // Stores which function (key) calls which functions (values).
+	tokens              []lexer.Token
+	index               int
+	path                string
+	prefix              string
+	currFunc            string
+	currFuncName        string              // Unprefixed name of the function which is currently parsed.
+	currFuncReturnTypes []ValueType         // Return types of the function which is currently parsed.
+	usedFuncs           map[string][]string // Stores which function (key) calls which functions (values).
 }
 
 func New() Parser {
@@ -1441,6 +1443,8 @@ func (p *Parser) evaluateFunctionDefinition(ctx context) (Statement, error) {
 
 	// Make sure sub-statements know in which function they are currently in.
 	p.currFunc = prefixedName
+	p.currFuncName = name
+	p.currFuncReturnTypes = returnTypes
 
 	statements, err := p.evaluateBlock(func(statements []Statement, last bool) error {
 		var errTemp error
@@ -1505,8 +1509,33 @@ func (p *Parser) evaluateReturn(ctx context) (Statement, error) {
 	if err != nil {
 		return nil, err
 	}
+
+	// Check every return statement (also the ones in nested blocks) against the function signature.
+	name := p.currFuncName
+	returnTypes := p.currFuncReturnTypes
+	values := evaluatedVals.values
+
+	if len(returnTypes) == 0 {
+		return nil, fmt.Errorf("function %s must not have a return statement", name)
+	} else if len(values) != len(returnTypes) {
+		return nil, fmt.Errorf(`function "%s" requires %d return values but returns %d`, name, len(returnTypes), len(values))
+	}
+
+	for i, value := range values {
+		returnType := returnTypes[i]
+		valueType := value.ValueType()
+
+		// nil is accepted for slices (as in Go).
+		if literal, ok := value.(StringLiteral); ok && literal.isNil && returnType.IsSlice() {
+			continue
+		}
+
+		if !valueType.Equals(returnType) {
+			return nil, fmt.Errorf(`function "%s" returns %s but expects %s`, name, valueType.String(), returnType.String())
+		}
+	}
 	return Return{
-		values: evaluatedVals.values,
+		values: values,
 	}, nil
 }
 
@@ -2010,8 +2039,8 @@ func (p *Parser) evaluateSingleExpression(ctx context) (Expression, error) {
 			value: integer,
 		}
 	case lexer.NIL_LITERAL:
-		p.eat()                // Eat string token.
-		expr = StringLiteral{} // nil is an empty string literal.
+		p.eat()                           // Eat string token.
+		expr = StringLiteral{isNil: true} // nil is an empty string literal.
 	case lexer.STRING_LITERAL:
 		p.eat() // Eat string token.
 		expr = StringLiteral{
